@@ -26,12 +26,16 @@ class FileProxy:
         object.__setattr__(self, "_f", f)
         object.__setattr__(self, "_path", path)
 
+    @staticmethod
+    def _nbytes(data):
+        return len(data.encode("utf-8")) if isinstance(data, str) else len(data)
+
     def write(self, data):
-        return self._ip.event("write", self._path, lambda: self._f.write(data), n=len(data))
+        return self._ip.event("write", self._path, lambda: self._f.write(data), n=self._nbytes(data))
 
     def writelines(self, lines):
         lines = list(lines)
-        return self._ip.event("write", self._path, lambda: self._f.writelines(lines), n=sum(len(x) for x in lines))
+        return self._ip.event("write", self._path, lambda: self._f.writelines(lines), n=sum(self._nbytes(x) for x in lines))
 
     def flush(self):
         return self._ip.event("flush", self._path, self._f.flush)
@@ -69,6 +73,7 @@ class Interposer:
         self.fd_paths = {}
         self.active = False
         self.depth = 0
+        self.kill_at = None      # (event index, "before" | "after"): SIGKILL this process there
 
     # ---- one event
     def event(self, name, target, thunk, n=0):
@@ -77,6 +82,8 @@ class Interposer:
         idx = len(self.events)
         rec = {"name": name, "target": self.rel(target), "faulted": False, "n": n}
         self.events.append(rec)
+        if self.kill_at and self.kill_at[0] == idx and self.kill_at[1] == "before":
+            os.kill(os.getpid(), 9)
         self.depth += 1
         try:
             if idx in self.faults:
@@ -85,6 +92,8 @@ class Interposer:
             return thunk()
         finally:
             self.depth -= 1
+            if self.kill_at and self.kill_at[0] == idx and self.kill_at[1] == "after":
+                os.kill(os.getpid(), 9)
             snap = self.classify()
             rec["dest"], rec["part"] = snap["dest"], snap["part"]
 
